@@ -221,7 +221,7 @@ def _job(args):
                         out["known_hits"].append(k)
         if failed and len(out["sample_failures"]) < 5:
             out["sample_failures"].append({"inputs": r["drawn"], "failed": [[f[0], f[2]] for f in failed]})
-        if len(out["sample_failures"]) >= 5:
+        if len(out["sample_failures"]) >= 5 or (failed and r["status"] == "timeout"):
             break
     out["distinct_samples"] = len(distinct)
     if u.level == "bounded" and it is not None:
